@@ -44,7 +44,7 @@ CLAIMED = {
          'hooks/steps/formatter/reporter are the only instrumentation (public extension points); third-party parse/cucumber code is observed, not modelled.',
  'technique': 'TLA+ small-step spec of the run engine (Run.tla) + property clauses (Props_Run.tla) model-checked with TLC on every (program, cfg, fault set); '
               'the same clauses judge TLC-validated traces of the real ModelRunner on exactly those inputs',
- 'text': 'Clauses C02.order / map / stop / rest / dry are invariants of Run.tla over the exhaustive `scen` family (every first-non-pass position x outcome x '
+ 'text': 'Clauses C02.order / map / stop / rest / skip_stops / dry / own_function (the function that runs is one registered for the step`s own type: all five keywords, one function per step type; scenarios whose steps compare equal) are invariants of Run.tla over the exhaustive `scen` family (every first-non-pass position x outcome x '
          'background levels x plain/row x wip x dry x continue) and judged on the traces of the real runner: step functions identify themselves by their own '
          'text, statuses are compared with the abstract outcome each step function realised.'},
     'C03': {'design_ref': 'DESIGN.md §7 C03',
